@@ -51,6 +51,7 @@ func (e *Engine) VerifyRefinement(implKey string) (*FuncResult, error) {
 		vc.assumeParamShape(st, v, prm.Type())
 	}
 	vc.entry = st.clone()
+	vc.assumeAxioms(st)
 	// the receiver seen through the interface is the implementation object itself
 	recvT := fn.Params[0].Type()
 	sig := fn.Signature
@@ -61,6 +62,9 @@ func (e *Engine) VerifyRefinement(implKey string) (*FuncResult, error) {
 		vc.assume(st, rolePre.bool(rolePre.eval(cl.Expr), cl.Expr))
 	}
 	for _, cl := range impl.ObjInv {
+		vc.assume(st, implPre.bool(implPre.eval(cl.Expr), cl.Expr))
+	}
+	for _, cl := range impl.Assumes {
 		vc.assume(st, implPre.bool(implPre.eval(cl.Expr), cl.Expr))
 	}
 	for _, cl := range impl.Requires {
@@ -123,9 +127,7 @@ func (e *Engine) VerifyRefinement(implKey string) (*FuncResult, error) {
 			implKeys[l.key] = true
 		}
 	}
-	for _, k := range e.modKeys(impl) {
-		implKeys[k] = true
-	}
+	// (keys that come only from `allocates` concern fresh objects and are exempt from the role's frame)
 	var ks []string
 	for k := range implKeys {
 		ks = append(ks, k)
@@ -135,7 +137,20 @@ func (e *Engine) VerifyRefinement(implKey string) (*FuncResult, error) {
 		ok := false
 		switch {
 		case k == "*":
-			ok = everything && len(preserved) == 0
+			ok = everything
+			implPres := map[string]bool{}
+			for _, cl := range impl.Preserves {
+				for _, l := range vc.evalLoc(implPre, cl.Expr, impl) {
+					if !l.all && len(l.idx) == 0 {
+						implPres[l.key] = true
+					}
+				}
+			}
+			for pk := range preserved {
+				if !implPres[pk] {
+					ok = false
+				}
+			}
 		case everything:
 			ok = !preserved[k]
 		default:
